@@ -310,6 +310,11 @@ def linearize_measure_contents(part, start, end, state):
     """
     splits = [start]
     q_times = part.quarter_durations(start.t, end.t)
+    # a change of the divisions where nothing starts or ends has no time point yet
+    added_points = []
+    for t in q_times[:, 0]:
+        if start.t < t < end.t and part.get_point(int(t)) is None:
+            added_points.append(part.get_or_add_point(int(t)))
     if len(q_times) > 0:
         quarter = start.quarter
         tp = start.next
@@ -335,6 +340,9 @@ def linearize_measure_contents(part, start, end, state):
                 fill_to_end=i == len(splits) - 1,
             )
         )
+
+    for tp in added_points:
+        part._cleanup_point(tp)
 
     return contents
 
